@@ -30,6 +30,17 @@ type docCase struct {
 	Query map[string][]string `json:"query,omitempty"`
 	Canon string              `json:"canonical,omitempty"` // for query: canonical JSON of the same members
 	What  string              `json:"what"`
+	// EarlierDocs: documents offered to a decoder for the same root earlier in the
+	// same generated case (a session); replay offers them first.
+	EarlierDocs []string `json:"earlier_documents,omitempty"`
+}
+
+// session replays the earlier documents of the case (their verdicts were given
+// when they were the subject).
+func session(s *codecx.Schema, md protoreflect.MessageDescriptor, docs []string) {
+	for _, d := range docs {
+		vf.GuardTimed("JSONToProto", callLimit, func() { _ = s.NewCodec().JSONToProto([]byte(d), dynamicpb.NewMessage(md)) })
+	}
 }
 
 func laneDoc(raw json.RawMessage) ([]vf.Failure, error) {
@@ -41,6 +52,7 @@ func laneDoc(raw json.RawMessage) ([]vf.Failure, error) {
 	if err != nil {
 		return nil, err
 	}
+	session(s, msg.Descriptor(), c.EarlierDocs)
 	return check(s, msg, c), nil
 }
 
@@ -701,6 +713,7 @@ func runFault(t *testing.T, lane string) {
 	r := vf.Start(t, prop, lane)
 	rapid.Check(t, func(t *rapid.T) {
 		s, msg, tree, _ := drawBase(t)
+		var offered []string
 		for i := 0; i < 6; i++ {
 			v := tree.Clone()
 			ss := sites(&v)
@@ -726,11 +739,20 @@ func runFault(t *testing.T, lane string) {
 				continue
 			}
 			doc := string(v.Bytes())
-			c := docCase{Case: s.Case(msg, source), Lane: "fault", Doc: doc, What: what}
+			c := docCase{Case: s.Case(msg, source), Lane: "fault", Doc: doc, What: what, EarlierDocs: append([]string(nil), offered...)}
+			offered = append(offered, doc)
 			r.Eval(st.depth >= 1, vf.Hash(c.Files, c.Root, doc), "fault:"+what, "pos:"+st.pos, fmt.Sprintf("depth:%d", min(st.depth, 4)))
 			if st.depth >= 2 && len(doc) < 400 && r.WantSample() {
 				r.Sample(map[string]string{"root": c.Root, "document": doc, "fault": what, "position": st.pos})
 			}
+			r.Judge(t, c, check(s, msg, c))
+		}
+		// after the refused documents, the canonical one must still decode to the
+		// message it was encoded from
+		if len(offered) > 0 {
+			doc := string(tree.Bytes())
+			c := docCase{Case: s.Case(msg, source), Lane: "spelling", Doc: doc, What: "after-refused-documents", EarlierDocs: offered}
+			r.Eval(true, vf.Hash(c.Files, c.Root, doc, offered), "session:canonical-after-faults")
 			r.Judge(t, c, check(s, msg, c))
 		}
 	})
